@@ -797,10 +797,152 @@ def r_direction(c):
                 "permutation is applied, which is only right for involutions (2-D transposes)")
 
 
+# ---------------------------------------------------------------- R02-MIRROR
+class _NotEval(Exception):
+    pass
+
+
+def _slice_eval(e, env):
+    """value of an expression made of names, integer constants, list/tuple displays,
+    constant subscripts and slices, on lists of symbols (no code is run: a list of
+    strings is sliced)"""
+    if isinstance(e, ast.Name):
+        if e.id in env:
+            return env[e.id]
+        raise _NotEval()
+    if isinstance(e, ast.Constant) and isinstance(e.value, int) \
+            and not isinstance(e.value, bool):
+        return e.value
+    if isinstance(e, ast.UnaryOp) and isinstance(e.op, ast.USub):
+        v = _slice_eval(e.operand, env)
+        if isinstance(v, int):
+            return -v
+        raise _NotEval()
+    if isinstance(e, (ast.List, ast.Tuple)):
+        return [_slice_eval(x, env) for x in e.elts]
+    if isinstance(e, ast.Subscript):
+        base = _slice_eval(e.value, env)
+        if not isinstance(base, list):
+            raise _NotEval()
+        sl = e.slice
+        if isinstance(sl, ast.Slice):
+            def b(x):
+                if x is None:
+                    return None
+                v = _slice_eval(x, env)
+                if not isinstance(v, int):
+                    raise _NotEval()
+                return v
+            return base[slice(b(sl.lower), b(sl.upper), b(sl.step))]
+        i = _slice_eval(sl, env)
+        if not isinstance(i, int) or not -len(base) <= i < len(base):
+            raise _NotEval()
+        return base[i]
+    if isinstance(e, ast.Call) and isinstance(e.func, ast.Name) \
+            and e.func.id in ("tuple", "list", "reversed") and len(e.args) == 1 \
+            and not e.keywords:
+        v = _slice_eval(e.args[0], env)
+        if not isinstance(v, list):
+            raise _NotEval()
+        return v[::-1] if e.func.id == "reversed" else list(v)
+    raise _NotEval()
+
+
+def _order_pairs(fd, order):
+    """[(label, C-order expression, F-order expression)] for every value chosen by a
+    test on the order: conditional expressions, and if/else arms that assign the same
+    names"""
+    def polarity(test):
+        t = ast.unparse(test)
+        if t in (f"{order} == 'C'", f"'C' == {order}", f"{order} != 'F'"):
+            return True
+        if t in (f"{order} == 'F'", f"'F' == {order}", f"{order} != 'C'"):
+            return False
+        return None
+    out = []
+    for n in ast.walk(fd):
+        if isinstance(n, ast.IfExp):
+            pol = polarity(n.test)
+            if pol is not None:
+                out.append((ast.unparse(n)[:70], n.body if pol else n.orelse,
+                            n.orelse if pol else n.body))
+        elif isinstance(n, ast.If) and n.orelse:
+            pol = polarity(n.test)
+            if pol is None:
+                continue
+
+            def simple(block):
+                d = {}
+                for st in block:
+                    if isinstance(st, ast.Assign) and len(st.targets) == 1 \
+                            and isinstance(st.targets[0], ast.Name):
+                        d[st.targets[0].id] = st.value
+                    elif isinstance(st, ast.AnnAssign) and isinstance(st.target, ast.Name) \
+                            and st.value is not None:
+                        d[st.target.id] = st.value
+                    else:
+                        return None
+                return d
+            a, b = simple(n.body), simple(n.orelse)
+            if a is None or b is None or set(a) != set(b):
+                continue
+            for k in a:
+                out.append((k, a[k] if pol else b[k], b[k] if pol else a[k]))
+    return out
+
+
+def r_order_mirror(c):
+    """reshape: Fortran order is C order on the reversed axes (the tail of
+    _generate_index_expressions reverses the stride lists for C and is otherwise the
+    same code for both).  Every slice of a shape that is chosen by the order -- the
+    axes the strides run over, the axes of the running sizes, the first running size
+    -- must therefore give, in its C form on a shape, what its F form gives on the
+    reversed shape.  Evaluated on lists of symbols of length 1..4 (pure slicing of a
+    list of names: a finite abstract evaluation, no code of the package runs)."""
+    m = c.model
+    fd0 = m.func("pytato.transform.lower_to_index_lambda._generate_index_expressions")
+    where = m.loc(m.module_of(fd0), fd0)
+    fd = m.expand_locals(m.inlined(fd0))
+    params = [a.arg for a in fd.args.args]
+    order = params[2]
+    n_ok = 0
+    for label, ce, fe in _order_pairs(fd, order):
+        names = {x.id for e in (ce, fe) for x in ast.walk(e) if isinstance(x, ast.Name)}
+        verdict = None
+        try:
+            for n in range(1, 5):
+                for nm in params[:2]:
+                    if nm not in names:
+                        continue
+                    sym = [f"{nm}[{i}]" for i in range(n)]
+                    other = [f"other[{i}]" for i in range(n)]
+                    env_c = {params[0]: other, params[1]: other}
+                    env_c[nm] = sym
+                    env_f = dict(env_c)
+                    env_f[nm] = sym[::-1]
+                    vc, vf = _slice_eval(ce, env_c), _slice_eval(fe, env_f)
+                    if vc != vf and verdict is None:
+                        verdict = (n, vc, vf)
+        except _NotEval:
+            continue        # not a pure slice of a shape: nothing to say
+        n_ok += 1
+        c.check(verdict is None, "R02-SIBLING", "_generate_index_expressions",
+                f"C-order-form-mirrors-F-order-form:{label}", where,
+                f"`{ast.unparse(ce)[:50]}` (C order) on a shape of length "
+                f"{verdict[0] if verdict else 0} gives {verdict[1] if verdict else ''} but "
+                f"`{ast.unparse(fe)[:50]}` (F order) on the reversed shape gives "
+                f"{verdict[2] if verdict else ''}: the two orders no longer treat mirrored "
+                "axes alike, one of them computes wrong strides / running sizes for groups "
+                "of three or more axes")
+    if n_ok < 1:
+        raise AnalysisError("anchor vanished: slices of the shapes chosen by the order in "
+                            "_generate_index_expressions")
+
+
 SPEC = Spec(
     prop="C02",
     rules=[r_total, r_meta, r_consume, r_bind, r_sibling, r_domain, r_sibling_adv, r_reshape_passthrough, r_concat_offsets, r_einsum_broadcast_first,
-           r_direction],
+           r_direction, r_order_mirror],
     floors={"R02-TOTAL": 21, "R02-META": 49, "R02-CONSUME": 18, "R02-BIND": 14,
             "R02-DOMAIN": 2, "R02-SIBLING": 4, "R02-DIRECTION": 2},
     explanation=(
@@ -827,7 +969,10 @@ SPEC = Spec(
         "enumerate(P), iteration over P, P[e], P.index(e), free range variables fixed by "
         "their uses) over map_axis_permutation and AxisPermutation.shape: the operand's "
         "index tuple is numbered by operand axes and holds index variables of result "
-        "axes, the shape is numbered by result axes and holds operand lengths. "
+        "axes, the shape is numbered by result axes and holds operand lengths. R02-SIBLING "
+        "also (C/F mirror): every slice of a shape that reshape's index arithmetic chooses "
+        "by the order gives, in its C form, what its F form gives on the reversed shape "
+        "(evaluated on lists of symbols of length 1..4). "
         "R02-BIND also: concatenate offsets are taken from the list of upper bounds (running sum), the upper bounds accumulate; in the einsum lowering, on every path through the per-axis loop the broadcast test (operand length vs. the einsum's length for the descriptor) is evaluated before the descriptor kind is tested, before an index variable is appended and before a binding or reduction bound is recorded, and the arm that appends subscript 0 does nothing else (path events, not statement positions). R02-DOMAIN also: a group of axes reshaped onto itself passes its index variables through at any rank."),
     not_decided=(
         "The index arithmetic itself (slice normalisation, reshape stride/modulo, "
